@@ -566,7 +566,7 @@ func TestVerifC17Gennaro(t *testing.T) {
 func TestVerifC17TopLevel(t *testing.T) {
 	r := vkit.Start(t, "C17", "top-level", 400*time.Second, 1800*time.Second)
 	defer r.Finish()
-	r.Rule = "one toy key (48-bit safe primes, CanProve) with 2 bases: BuildProof, VerifyProof, JSON round trip; verification against N+2k, a foreign modulus, an altered / reordered / shortened base list; each top-level field replaced by the corresponding field of a valid proof for another key (thorough); non-trivial = distinct full verification; oracle: unaltered => accepted, anything else => rejected"
+	r.Rule = "one toy key (48-bit safe primes, CanProve) with 2 bases: BuildProof, VerifyProof, JSON round trip; a second honest proof (own group prime) and an altered one on structures that already built / verified another proof; verification against N+2k, a foreign modulus, an altered / reordered / shortened base list; each top-level field replaced by the corresponding field of a valid proof for another key (thorough); non-trivial = distinct full verification; oracle: unaltered => accepted, anything else => rejected"
 	if r.Shard != 0 {
 		return
 	}
@@ -615,6 +615,40 @@ func TestVerifC17TopLevel(t *testing.T) {
 			r.Violate("C17|top-level|proof-not-deserialisable", err.Error(), nil)
 		} else {
 			verify("after JSON round trip", s, back, true)
+		}
+	}
+	// object reuse: a structure that has built or verified one proof must treat the next one (which has
+	// its own, different group prime) like a fresh structure does
+	{
+		sB := NewValidKeyProofStructure(N, bases)
+		proofB := sB.BuildProof(pp, qp)
+		if proofB.GroupPrime.Cmp(proof.GroupPrime) == 0 {
+			r.Count("second proof drew the same group prime (reuse cases trivial)", 1)
+		}
+		verify("second honest proof on the structure that built the first", s, proofB, true)
+		verify("first honest proof on the structure that built the second", sB, proof, true)
+		sV := NewValidKeyProofStructure(N, bases)
+		for i, p := range []ValidKeyProof{proof, proofB, proof} {
+			r.Eval()
+			what := fmt.Sprintf("verification %d of 3 (proofs with different group primes) on one verifier structure", i+1)
+			r.Nontrivial(what)
+			var ok bool
+			if pan, _ := vkit.Guard(func() { ok = sV.VerifyProof(p) }); pan {
+				ok = false
+			}
+			r.Outcome(fmt.Sprintf("reuse:accepted=%v", ok))
+			if !ok {
+				r.Violate("C17|top-level|honest-proof-rejected|structure reused", what, what)
+			}
+		}
+		// and an altered proof stays rejected on a structure that has just accepted the honest one
+		bad := proofB
+		bad.GroupPrime = proof.GroupPrime
+		r.Eval()
+		r.Nontrivial("reuse: proof B with the group prime of proof A on the reused verifier")
+		var ok bool
+		if pan, _ := vkit.Guard(func() { ok = sV.VerifyProof(bad) }); !pan && ok {
+			r.Violate("C17|top-level|accepted-although-altered|group prime replaced, structure reused", "", nil)
 		}
 	}
 	verify("modulus N+8", NewValidKeyProofStructure(new(big.Int).Add(N, big.NewInt(8)), bases), proof, false)
